@@ -231,6 +231,19 @@ def run_config(cfg, rank, world, normal):
         st["noise_calls"] = [c for c in normal.calls[c0:]]
         res["steps"].append(st)
     res["noise_calls_total"] = len(normal.calls) - n0
+    if world > 0 and "aborted_at" not in res:
+        # probe of the public helper `opacus.distributed.average_gradients`: every rank loads its own
+        # initial weights into .grad, then averages
+        try:
+            from opacus.distributed import average_gradients
+
+            m = weights(module)
+            for p, v in zip((m.fc1.weight, m.fc2.weight), cfg["init"][rank]):
+                p.grad = torch.tensor(v, dtype=p.dtype).view_as(p).clone()
+            average_gradients(m)
+            res["avg_probe"] = grads(m)
+        except Exception as e:
+            res["avg_probe_error"] = err_str(e)
     # per-config numbering: later configs must not depend on earlier ones
     return res
 
